@@ -49,13 +49,33 @@ def body(env, prog, conn):
     env.nonblocking = False
 
     def construct():
-        c = Collection(prog["spelled"], UkvCollectionBackend, readonly=prog["ro"], bufsize=BUFS[prog["buf"]], value_encoder=enc)
+        kw = {}
+        if prog.get("recreate"):
+            # the library is created anew (under its write lock) with a header of another length
+            kw = dict(overwrite=True, comment=prog["recreate"])
+        c = Collection(prog["spelled"], UkvCollectionBackend, readonly=prog["ro"], bufsize=BUFS[prog["buf"]], value_encoder=enc, **kw)
         # long-lived handle: it outlives the execution (a leaked lock must stay leaked, not be
         # released by the garbage collector at a moment the scheduler does not control)
         env.keep = c
         return c
 
     log = []
+    route = prog.get("cfg_route")
+    if route:
+        # how this process learnt where molli's shared directory (lock files) is: from the environment when
+        # molli was imported (emulated in the forked worker by re-executing molli.config and molli._aux.lock
+        # with the variable set), or from a configure() call at run time (what `molli --CONFIG` does)
+        import importlib
+        import molli.config as _mc
+        import molli._aux.lock as _ml
+
+        os.environ.pop("MOLLI_SHARED_DIR", None)
+        if route[0] == "env":
+            os.environ["MOLLI_SHARED_DIR"] = route[1]
+        importlib.reload(_mc)
+        importlib.reload(_ml)
+        if route[0] == "configure":
+            _mc.configure(SHARED_DIR=route[1])
     if not prog.get("sched_ctor"):
         coll = construct()
     conn.send(("ready",))
@@ -222,7 +242,9 @@ class Bench:
         for wid, w in enumerate(spec):
             sp, cwd = self.spelled(wid, w["spelling"])
             ro = bool(w.get("ro"))
-            progs.append({"lib": str(self.lib), "spelled": sp, "cwd": cwd, "ro": ro, "buf": w["buf"], "sessions": w["sessions"], "sched_ctor": bool(w.get("sched_ctor")), "exits": bool(w.get("exits"))})
+            progs.append({"lib": str(self.lib), "spelled": sp, "cwd": cwd, "ro": ro, "buf": w["buf"], "sessions": w["sessions"], "sched_ctor": bool(w.get("sched_ctor")), "exits": bool(w.get("exits")), "recreate": w.get("recreate"), "cfg_route": (w["cfg_route"], str(self.root / "site_shared")) if w.get("cfg_route") else None})
+        if any(w.get("cfg_route") for w in spec):
+            self.lockpath = self.root / "site_shared" / "lock" / self.lockpath.name
         return progs
 
 
@@ -243,6 +265,10 @@ def _val(wid, si, j, seed):
 
 
 def fault_context(spec):
+    if any(w.get("recreate") for w in spec):
+        return "library-recreated-by-another-process"
+    if any(w.get("cfg_route") for w in spec):
+        return "processes-configured-by-different-routes"
     if any(w.get("sched_ctor") for w in spec):
         return "concurrent-construction"
     if any(w.get("exits") or any(s.get("timeout") for s in w["sessions"]) for w in spec):
@@ -260,6 +286,29 @@ def judge(bench: Bench, spec, x: schedx.Execution):
     logs = [x.logs[i] for i in range(bench.n)]
     any_write_fault = False
     must, may, dupvals = {}, {}, {}
+    # a process that re-creates the library (constructor with overwrite=True, under the write lock) legitimately
+    # discards everything stored before: sessions released before that moment are "dead"
+    dead, reset_pos, new_comment = set(), None, b""
+    recreators = [w for w in range(bench.n) if spec[w].get("recreate")]
+    if recreators:
+        cnt = {w: (-1 if spec[w].get("sched_ctor") else 0) for w in range(bench.n)}
+        relpos = {}
+        for pos, (ev, wid, mode) in enumerate(x_events(x)):
+            if ev == "acq":
+                if wid in recreators and cnt[wid] == -1:
+                    reset_pos = pos
+                    new_comment = spec[wid]["recreate"].encode()
+            else:
+                relpos[(wid, cnt[wid])] = pos
+                cnt[wid] += 1
+        if reset_pos is not None:
+            dead = {ws for ws, pos in relpos.items() if pos < reset_pos}
+    dead_puts = {}
+    for wid, log in enumerate(logs):
+        for si, e in enumerate(log):
+            if (wid, si) in dead:
+                for k, v in e["puts"]:
+                    dead_puts.setdefault(k, []).append(v)
     for wid, log in enumerate(logs):
         for si, e in enumerate(log):
             if e["kind"] == "ctor":
@@ -284,6 +333,8 @@ def judge(bench: Bench, spec, x: schedx.Execution):
             if not e["file_closed_after"]:
                 out.append(("file-left-open-after-session", f"worker {wid} session {si}: library file still open after the session ended ({'failed' if failed else 'ok'})"))
             pv = dict((k, v) for k, v in e["puts"])
+            if (wid, si) in dead:
+                continue
             for k in e["puts_ok"]:
                 if e["kind"] == "D":
                     dupvals.setdefault(k, []).append(pv[k])
@@ -318,6 +369,10 @@ def judge(bench: Bench, spec, x: schedx.Execution):
         recs, _, clean = parse_ukv(bench.lib.read_bytes())
         if not clean or {k.decode(): v for k, v in recs} != final or len(recs) != len(final):
             out.append(("file-not-wellformed", "the file does not parse as header|complete records holding exactly what a reader lists"))
+    if recreators:
+        _, hdr, _ = parse_ukv(bench.lib.read_bytes())
+        if hdr[1] != new_comment:
+            out.append(("file-header-wrong", f"the library's comment is {hdr[1]!r}; the last creation gave {new_comment!r}"))
     for k, v in must.items():
         if k not in final:
             out.append(("completed-record-lost", f"record {k!r} written in a completed session is missing"))
@@ -343,8 +398,10 @@ def judge(bench: Bench, spec, x: schedx.Execution):
     # a handle constructed under the scheduler takes (and releases) the write lock once before its sessions
     sidx = {w: (-1 if spec[w].get("sched_ctor") else 0) for w in range(bench.n)}
     snap = {}
-    for ev, wid, mode in x_events(x):
+    for pos, (ev, wid, mode) in enumerate(x_events(x)):
         if ev == "acq":
+            if pos == reset_pos:
+                visible.clear()
             snap[(wid, sidx[wid])] = set(visible)
         else:
             si = sidx[wid]
@@ -365,11 +422,17 @@ def judge(bench: Bench, spec, x: schedx.Execution):
                 r = e["reads"].get(k)
                 if isinstance(r, (tuple, list)):
                     out.append(("reader-listed-key-unreadable", f"reader {wid}.{si}: listed key {k!r} raised {r[1]}"))
+                elif (wid, si) in dead:
+                    # it read the library as it was before the re-creation
+                    if r not in dead_puts.get(k, ()):
+                        out.append(("reader-saw-incomplete-record", f"reader {wid}.{si} (before the library was re-created) read {k!r} with a value nobody stored"))
                 elif k not in final:
                     out.append(("reader-saw-uncommitted-key", f"reader {wid}.{si} listed {k!r} which is not in the final library"))
                 elif r != final[k]:
                     out.append(("reader-saw-incomplete-record", f"reader {wid}.{si} read {k!r} with a value different from the committed one"))
             need = snap.get((wid, si))
+            if (wid, si) in dead:
+                need = None  # what was committed before it began is judged against the final library only for live sessions
             if need is not None and e["exc"] is None:
                 miss = sorted(need - set(e["listed"]))
                 if miss:
@@ -527,6 +590,35 @@ def ctor_specs(ctx, nworkers, spellings):
     return specs
 
 
+def cfg_route_specs(ctx, spellings):
+    """the two processes learn the shared directory (where the lock files live) by different routes:
+    environment variable at import time vs. configure() at run time - same directory"""
+    specs = []
+    for routes in (("env", "configure"), ("configure", "env"), ("configure", "configure")):
+        for k0, k1 in ((("W",), ("W",)), (("W", "R"), ("W",)), (("R",), ("W",)), (("D",), ("D",))):
+            specs.append([
+                {"spelling": spellings[w % len(spellings)], "buf": ["dflt", "large"][w], "ro": False, "cfg_route": routes[w], "sessions": mk_sessions(w, ks, ctx.seed)}
+                for w, ks in enumerate((k0, k1))
+            ])
+    return specs
+
+
+def recreate_specs(ctx, spellings):
+    """worker 0 keeps a long-lived handle (constructed before anything starts) and runs sessions; worker 1
+    re-creates the library (overwrite=True, comment of another length) at a moment the scheduler chooses -
+    before, between or after worker 0's sessions - and then runs its own"""
+    specs = []
+    for k0 in (("W", "R"), ("W", "W"), ("R", "W"), ("R", "R"), ("W", "R", "W")):
+        for k1 in ((), ("W",), ("R",)):
+            for buf0 in ("dflt", "large"):
+                for comment in ("a longer comment than before", "c"):
+                    specs.append([
+                        {"spelling": spellings[0], "buf": buf0, "ro": False, "sessions": mk_sessions(0, k0, ctx.seed)},
+                        {"spelling": spellings[1 % len(spellings)], "buf": "dflt", "ro": False, "sched_ctor": True, "recreate": comment, "sessions": mk_sessions(1, k1, ctx.seed)},
+                    ])
+    return specs
+
+
 def lifecycle_specs(ctx, spellings):
     """sessions with a timeout (they give up instead of waiting) and processes that terminate
     normally (the library's atexit hooks run) while others keep working"""
@@ -679,7 +771,13 @@ def run(ctx):
         "every schedule (choice of which process performs its next lock/file action) with <= bound preemptions of every program tuple "
         "(2..3 processes x 1..2 sessions from {writer of 2 records, writer of a shared duplicate key, reader}, long-lived handles, one "
         "path spelling and buffer size per process) is executed on real processes with the real fcntl lock; plus, for the fault family, "
-        "one injected exception at every fault point (body, encoder, n-th file write, close, open) of a session. states = distinct "
+        "one injected exception at every fault point (body, encoder, n-th file write, close, open, final flush that loses the buffered "
+        "bytes) of a session; a construction family in which the handles are created under the scheduler; a lifecycle family with "
+        "sessions that give up after a timeout and processes that exit normally (captured atexit hooks run under the scheduler) while "
+        "others continue; a re-creation family in which another process creates the library anew (overwrite=True, header of another "
+        "length) before, between or after the sessions of a long-lived handle; a configuration family in which the processes learn "
+        "the shared (lock file) directory by different routes (environment at import time / configure() at run time); and every behaviour of the TLA+ session model (TLC, models/Sessions.tla) replayed through the scheduler, "
+        "with every lock-level event sequence of every explored execution checked for membership in the model. states = distinct "
         "(program, schedule) executions, transitions = scheduling steps. non-trivial = executions with >= 1 preemption or a fired fault, "
         "distinct by (lock order, per-session logs)"
     )
@@ -708,6 +806,8 @@ def run(ctx):
         ctx.pmap(part_plain, [(2, 2, c) for c in chunks(specsc, nproc)], nproc=nproc)
         lsp = lifecycle_specs(ctx, sp2)
         ctx.pmap(part_plain, [(len(s), 2, [s]) for s in lsp], nproc=nproc)
+        ctx.pmap(part_plain, [(2, 1, c) for c in chunks(recreate_specs(ctx, list(sp_q)), nproc)], nproc=nproc)
+        ctx.pmap(part_plain, [(2, 2, c) for c in chunks(cfg_route_specs(ctx, list(sp_q)), 4)], nproc=nproc)
         model_family(ctx, 2, beh2, nproc)
         ctx.bound = {"processes": 2, "sessions_total": 4, "preemptions": bound, "fault_family_preemptions": 1, "faults_per_execution": 1, "path_spellings": list(sp_q) + ["rel+sym in the fault family"]}
     else:
@@ -721,6 +821,8 @@ def run(ctx):
         ctx.pmap(part_plain, [(2, 3, c) for c in chunks(ctor_specs(ctx, 2, sp2[:2]), nproc)], nproc=nproc)
         ctx.pmap(part_plain, [(3, 2, c) for c in chunks(ctor_specs(ctx, 3, sp2), nproc * 2)], nproc=nproc)
         ctx.pmap(part_plain, [(len(s), 3, [s]) for s in lifecycle_specs(ctx, sp2)], nproc=nproc)
+        ctx.pmap(part_plain, [(2, 2, c) for c in chunks(recreate_specs(ctx, sp2[:2]), nproc)], nproc=nproc)
+        ctx.pmap(part_plain, [(2, 3, c) for c in chunks(cfg_route_specs(ctx, sp2[:2]), 6)], nproc=nproc)
         model_family(ctx, 2, beh2, nproc)
         model_family(ctx, 3, beh3, nproc)
         ctx.bound = {"processes": "2 (bound 3) and 3 (bound 2)", "sessions_total": "4 / 4", "fault_family_preemptions": 2, "faults_per_execution": 1, "path_spellings": sp2}
